@@ -100,6 +100,8 @@ def generate(rng, opts):
         # directory names are the user's choice: they may look like a (normalised) reference
         "repo_dirname": rng.choice(["repo", "repo", "repo", "main", "v1", "HEAD"]),
         "user_worktree_dirname": rng.choice(["user-wt", "user-wt", "v1", "feature-x", "release-1-0", "dev", "main", "1-0-0"]),
+        # the user may be working in a linked worktree of their repository (where .git is a file) and run Griffe there
+        "work_in_linked_worktree": rng.random() < 0.25,
         "dirty": rng.sample(["modified", "staged", "untracked", "ignored"], rng.choice([0, 0, 1, 2, 3])),
         "user_worktree": rng.choice([None, None, None, None, "live", "live", "live", "stale"]) if all_branches else None,
     }
@@ -476,7 +478,7 @@ def _expected_break(world, op):
     old = _ref_commit(world, op["against"])
     if op.get("base_ref") is None:
         st = world["state"]
-        if st["dirty"] or st["detached"]:
+        if st["dirty"] or st["detached"] or st.get("work_in_linked_worktree"):
             return None
         new = len(world["commits"]) - 1
     else:
@@ -498,6 +500,12 @@ def _ref_commit(world, ref):
     commits = world["commits"]
     last = len(commits) - 1
     head = last - 1 if world["state"]["detached"] else last
+    st = world["state"]
+    if st.get("work_in_linked_worktree") and st["user_worktree"] == "live":
+        # HEAD is the one of the linked worktree the user works in: the first branch
+        branches = [(i, b) for i, c in enumerate(commits) for b in c["branches"]]
+        if branches:
+            head = branches[0][0]
     if ref in ("main",):
         return last
     if ref == "HEAD":
@@ -535,6 +543,10 @@ def execute(plan, ctx):
     try:
         os.environ.update(GIT_ENV)
         repo = build_repo(root, world)
+        main_repo = repo
+        linked = os.path.join(root, "wts", world["state"].get("user_worktree_dirname", "user-wt"))
+        if world["state"].get("work_in_linked_worktree") and world["state"]["user_worktree"] == "live" and os.path.isdir(linked):
+            repo = linked
         os.chdir(repo)
         tempfile.tempdir = tmpdir
         names = _names_iter(str(plan.get("seed", 0)))
@@ -547,7 +559,7 @@ def execute(plan, ctx):
                 op = {**prev_op, "faults": []}
             prev_op = op
             ctx.steps += 1
-            before = snapshot(repo, root, tmpdir)
+            before = (snapshot(repo, root, tmpdir), snapshot(main_repo, root, tmpdir) if main_repo != repo else None)
             faults = op["faults"]
             shim = SubprocessShim(faults, ctx)
             counter = {"n": 0}
@@ -611,11 +623,11 @@ def execute(plan, ctx):
                 sys.dont_write_bytecode = old_dwb
                 for name in [n for n in sys.modules if n == "pkg" or n.startswith("pkg.")]:
                     del sys.modules[name]
-            after = snapshot(repo, root, tmpdir)
+            after = (snapshot(repo, root, tmpdir), snapshot(main_repo, root, tmpdir) if main_repo != repo else None)
             ctx.log("op", (oi, op["op"], op.get("ref", op.get("against")), outcome, tuple(shim.sites), counter["n"]))
             trace.append((op["op"], outcome, tuple(sorted(f["kind"] + ":" + str(f.get("how", f.get("at", ""))) for f in faults))))
             tags = _tags(world, op, faults, shim, ctx)
-            d = snap_diff(before, after)
+            d = snap_diff(before[0], after[0]) or (snap_diff(before[1], after[1]) if before[1] is not None else None)
             if d is not None:
                 key, a, b = d
                 ctx.fail("G-" + key, f"after {op['op']}({op.get('ref', op.get('against'))}) ending with {outcome}: {key} changed: {_short(a)} -> {_short(b)}", tags=tags)
@@ -703,7 +715,7 @@ def shrink_candidates(plan):
             yield {**plan, "ops": ops[:i] + [{**op, "api": "check"}] + ops[i + 1 :]}
     world = plan["world"]
     st = world["state"]
-    for key, simple in (("collide_branch", False), ("detached", False), ("user_worktree", None), ("repo_dirname", "repo"), ("user_worktree_dirname", "user-wt")):
+    for key, simple in (("collide_branch", False), ("detached", False), ("user_worktree", None), ("repo_dirname", "repo"), ("user_worktree_dirname", "user-wt"), ("work_in_linked_worktree", False)):
         if st[key] != simple:
             yield {**plan, "world": {**world, "state": {**st, key: simple}}}
     for red in core.list_reductions(st["dirty"]):
